@@ -225,3 +225,39 @@ Lemma bech32_without_letters_refuted :
   exists s, spec_bech32_decode s 1 = Some ([x32], [30; 5; 7])
             /\ parse_bech32 s = Err AssertionE /\ decode_bech32_string s 1 = Err AssertionE.
 Proof. exists no_letter_bech32. vm_compute. auto. Qed.
+
+(* ---------- inversion lemmas for callers of the classifier (C08: scriptpubkey's segwit branch) ---------- *)
+Lemma spec_decode_facts s h v p : spec_decode s = Some (h, v, p) ->
+  existsb (bytes_eqb h) segwit_hrps = true /\ 0 <= v <= 16 /\ program_length_ok v (length p) = true.
+Proof.
+  rewrite spec_decode_unfold. intros H.
+  destruct (negb _); [discriminate|]. destruct (mixed_case s); [discriminate|].
+  destruct (split_last_sep (lowercase s)) as [[h' d]|]; [|discriminate].
+  unfold spec_tail in H.
+  destruct (negb _); [discriminate|]. destruct (negb _); [discriminate|].
+  destruct (values_of d) as [[|v' rest]|] eqn:VO; try discriminate.
+  destruct (v' <=? 16) eqn:V16; [|discriminate]. cbn [negb] in H.
+  destruct (negb _); [discriminate|].
+  destruct (convert_5to8 _) as [p'|]; [|discriminate].
+  destruct (program_length_ok v' (length p') && existsb (bytes_eqb h') segwit_hrps) eqn:E; [|discriminate].
+  injection H as -> -> ->. apply andb_true_iff in E as [E1 E2]. apply Z.leb_le in V16.
+  pose proof (values_of_mapM _ _ VO) as M. apply mapM_int_map_ok in M as (_ & R & _).
+  inversion R; subst. repeat split; auto; lia.
+Qed.
+
+Lemma is_segwit_addr_true_inv s : is_segwit_addr s = Ok true ->
+  exists h v p, decode_segwit_addr s = Ok (h, v, p) /\ assert_valid_segwit h v p = Ok tt
+                /\ spec_decode s = Some (h, v, p)
+                /\ existsb (bytes_eqb h) segwit_hrps = true /\ 0 <= v <= 16
+                /\ program_length_ok v (length p) = true.
+Proof.
+  rewrite is_segwit_addr_spec. unfold valid_segwit. intros H.
+  destruct (spec_decode s) as [[[h v] p]|] eqn:SD; [|discriminate]. exists h, v, p.
+  pose proof (proj2 (accept_iff_spec _ _) SD) as DV. apply decode_valid_parts in DV as (D & S).
+  destruct (spec_decode_facts _ _ _ _ SD) as (F1 & F2 & F3). auto 10.
+Qed.
+
+Lemma is_segwit_addr_false_iff s : is_segwit_addr s = Ok false <-> spec_decode s = None.
+Proof.
+  rewrite is_segwit_addr_spec. unfold valid_segwit. destruct (spec_decode s); split; intros H; congruence.
+Qed.
